@@ -7,21 +7,21 @@ use super::Prop;
 use crate::common::{CaseResult, Ctx, Rng};
 
 const RULE: &str = "cases = op sequences on an initially empty HeaderMap: every sequence of mutators \
-(insert/append over names a,A,b and values 1,2; remove; retain; clear; drain; http round-trip) up to the tier's depth, \
+(insert/append over names a,A,b and values 1,2; remove; retain; clear; drain; http round-trip; FromIterator rebuild) up to the tier's depth, \
 each mutator followed by the observers (get, get_all, contains, len, iter, into_iter, keys), plus seeded random \
 sequences up to length 300 over a wider alphabet incl. invalid names; a case is non-trivial if the map was non-empty \
 at some point; distinct = distinct (case, output) hashes";
 
 const MUT: &[&str] = &[
     "in:a:1", "in:A:2", "in:b:1", "ap:a:2", "ap:A:1", "ap:b:2", "rm:a", "rm:B", "rt:a:1", "rt:*:2",
-    "cl", "hr", "dr",
+    "cl", "hr", "dr", "fi",
 ];
 const OBS: &str = "gt:a ga:A ck:b ln it ii ks";
 
 const RAND_OPS: &[&str] = &[
     "in:a:1", "in:A:2", "in:b:1", "in:content-type:3", "in:B:2", "ap:a:2", "ap:A:1", "ap:b:2", "ap:a:3",
     "ap:Content-Type:1", "ap:x-y:2", "ap:b:1", "ap:a:1", "rm:a", "rm:B", "rm:zz", "rm:(", "rm:a@b",
-    "rm:content-type", "rt:a:1", "rt:*:2", "rt:b:*", "rt:*:*", "rt:zz:*", "cl", "hr", "dr", "gt:a", "gt:B",
+    "rm:content-type", "rt:a:1", "rt:*:2", "rt:b:*", "rt:*:*", "rt:zz:*", "cl", "hr", "dr", "fi", "gt:a", "gt:B",
     "gt:(", "ga:A", "ga:zz", "ck:b", "ck:a@b", "ln", "it", "ii", "ks",
 ];
 
@@ -324,6 +324,11 @@ fn run(line: &str) -> CaseResult {
                 }
                 m = HeaderMap::from(h);
                 format!("H{}", show_ref(&hr))
+            }
+            ["fi"] => {
+                // FromIterator<(HeaderName, HeaderValue)>
+                m = m.clone().into_iter().collect::<HeaderMap>();
+                format!("F{}", show_map(&m))
             }
             _ => "bad-op".into(),
         };
